@@ -92,7 +92,14 @@ func appsMatch(exp []App, got []EvRec) bool {
 		if a.Failed != (e.Op.Err != nil) {
 			return false
 		}
-		return a.Failed || valEq(a.Res, e.Op.Res)
+		if a.Failed {
+			// a registered operator may return a value next to its error: the event reports what the operator returned
+			if _, custom := stdCustom[a.Name]; custom {
+				return valEq(a.Res, e.Op.Res)
+			}
+			return true
+		}
+		return valEq(a.Res, e.Op.Res)
 	}
 	var rec func(i, j int) bool
 	rec = func(i, j int) bool {
@@ -349,7 +356,8 @@ func c12Run(w *W, idx int) {
 			if same && po.Err == nil {
 				same = valEq(po.V, eo.V)
 			} else if same {
-				same = po.Err == eo.Err || po.Err.Error() == eo.Err.Error()
+				// (the value a failing operator returns next to its error is handed on by Eval in both modes)
+				same = (po.Err == eo.Err || po.Err.Error() == eo.Err.Error()) && valEq(po.V, eo.V)
 			}
 			if !same {
 				w.Fail("event-mode-changes-result/"+timing, "%s: plain program gives %s, event-mode program gives %s (consumer timing %s)\n%s", what, po, eo, timing, describeCase(src, ecfg, b))
